@@ -540,6 +540,113 @@ def decide_sign(ctx, rf, ranges):
     return {'+': '-', '-': '+', '0+': '0-', '0-': '0+'}[sn]
 
 
+_NONNEG, _NONPOS = ('+', '0+', '0'), ('-', '0-', '0')
+
+
+def _neg_sign(sg):
+    return {'+': '-', '-': '+', '0+': '0-', '0-': '0+', '0': '0', None: None}[sg]
+
+
+def _sign_one_root(ctx, A, B, Q, ranges):
+    """sign of A + B*sqrt(Q) (A, B, Q polynomials without that root): coefficient certificates for A and B;
+    when they disagree, A >= |B| sqrt(Q) <=> A^2 >= B^2 Q."""
+    sA, sB = _poly_sign(ctx, A, ranges), _poly_sign(ctx, B, ranges)
+    if sB == '0':
+        return sA
+    if sA is None or sB is None:
+        return None
+    if sA in _NONNEG and sB in _NONNEG:
+        return '+' if sA == '+' else '0+'
+    if sA in _NONPOS and sB in _NONPOS:
+        return '-' if sA == '-' else '0-'
+    D = p_sub(ctx.reduce(p_mul_raw(A, A)), ctx.reduce(p_mul_raw(p_mul_raw(B, B), Q)))
+    sD = _poly_sign(ctx, D, ranges)
+    if sD is None:
+        return None
+    if sA in _NONNEG:        # B <= 0
+        return ('+' if sD == '+' else '0+') if sD in _NONNEG else ('-' if sD == '-' else '0-')
+    return ('+' if sD == '-' else '0+') if sD in _NONPOS else ('-' if sD == '+' else '0-')
+
+
+def _split_root(p, r):
+    A, B = {}, {}
+    for m, c in p.items():
+        e = dict(m).get(r, 0)
+        if e == 0:
+            A = p_add(A, {m: c})
+        elif e == 1:
+            B = p_add(B, {tuple((a, k) for a, k in m if a != r): c})
+        else:
+            return None
+    return A, B
+
+
+def decide_sign_sqrt(ctx, rf, ranges):
+    """Sign of a rational function whose numerator is A + B*sqrt(Q1) [+ C*sqrt(Q2)] (each root of degree 1,
+    no product of the two): besides the coefficient-sign certificate of `decide_sign`, disagreeing parts
+    are compared through their squares (each squaring removes one root).  Returns '+', '0+', '-', '0-',
+    '0' or None (no certificate found)."""
+    s = decide_sign(ctx, rf, ranges)
+    if s is not None:
+        return s
+    roots = set()
+    for m in rf.num:
+        for a, e in m:
+            if isinstance(a, tuple) and a and a[0] == 'sqrt':
+                roots.add(a)
+    roots = sorted(roots, key=repr)
+    sn = None
+    if len(roots) == 1:
+        sp = _split_root(rf.num, roots[0])
+        if sp is None:
+            return None
+        sn = _sign_one_root(ctx, sp[0], sp[1], dict(roots[0][1]), ranges)
+    elif len(roots) == 2:
+        for r1, r2 in ((roots[0], roots[1]), (roots[1], roots[0])):
+            sp = _split_root(rf.num, r2)
+            if sp is None:
+                return None
+            X, C = sp                         # numerator = X + C*r2, X = A + B*r1
+            if any(a == r1 for m in C for a, e in m):
+                return None                   # a product r1*r2
+            spx = _split_root(X, r1)
+            if spx is None:
+                return None
+            A, B = spx
+            Q1, Q2 = dict(r1[1]), dict(r2[1])
+            sX = _sign_one_root(ctx, A, B, Q1, ranges)
+            sC = _poly_sign(ctx, C, ranges)
+            if sX is None or sC is None:
+                continue
+            if sX in _NONNEG and sC in _NONNEG:
+                sn = '+' if sX == '+' else '0+'
+            elif sX in _NONPOS and sC in _NONPOS:
+                sn = '-' if sX == '-' else '0-'
+            else:
+                # X^2 - C^2 Q2 = (A^2 + B^2 Q1 - C^2 Q2) + 2AB r1
+                A2 = p_sub(p_add(ctx.reduce(p_mul_raw(A, A)), ctx.reduce(p_mul_raw(p_mul_raw(B, B), Q1))), ctx.reduce(p_mul_raw(p_mul_raw(C, C), Q2)))
+                B2 = p_mul_raw(p_const(2), p_mul_raw(A, B))
+                sD = _sign_one_root(ctx, A2, B2, Q1, ranges)
+                if sD is None:
+                    continue
+                if sX in _NONNEG:            # C <= 0: X >= |C| r2 <=> X^2 >= C^2 Q2
+                    sn = ('+' if sD == '+' else '0+') if sD in _NONNEG else ('-' if sD == '-' else '0-')
+                else:                        # X <= 0 <= C: C r2 >= |X| <=> C^2 Q2 >= X^2
+                    sn = ('+' if sD == '-' else '0+') if sD in _NONPOS else ('-' if sD == '+' else '0-')
+            if sn is not None:
+                break
+    if sn is None:
+        return None
+    flip = False
+    for k, e in rf.fac.items():
+        sf = _poly_sign(ctx, dict(k), ranges)
+        if sf not in ('+', '-'):
+            return None
+        if sf == '-' and e % 2:
+            flip = not flip
+    return _neg_sign(sn) if flip else sn
+
+
 def _poly_sign(ctx, p, ranges):
     import itertools
     if not p:
